@@ -129,10 +129,20 @@ def _compare_with(table: dict) -> str | None:
 
 
 class _Clock:
-    def __init__(self) -> None:
-        self.t = 0.0
+    """The journal's clock, owned by the simulator: one tick per reading - and, as a fault, one step BACKWARDS (an
+    NTP correction, a resumed VM) after a given number of readings."""
+
+    def __init__(self, step_back_at: int | None = None) -> None:
+        self.t = 1000.0
+        self.reads = 0
+        self.step_back_at = step_back_at
+        self.stepped = False
 
     def time(self) -> float:
+        self.reads += 1
+        if self.step_back_at is not None and self.reads == self.step_back_at:
+            self.t -= 500.0
+            self.stepped = True
         self.t += 1.0
         return self.t
 
@@ -208,6 +218,8 @@ def gen_case(run_seed: int, tier: str, index: int = 0) -> dict:
     # sys.tracebacklimit as command-line tools set it to hide tracebacks (it also limits traceback.extract_stack)
     tr = Streams(run_seed).rng("tracebacklimit")
     knobs["tracebacklimit"] = tr.choice([0, 1, 2, 3, 5]) if tr.random() < 0.2 else None
+    cr = Streams(run_seed).rng("clock-fault")
+    knobs["clock_step_back_at"] = cr.choice([2, 5, 10, 20, 40]) if cr.random() < 0.25 else None
     return {"property": PROPERTY, "run_seed": run_seed, "ops": op_list, "plan": plan, "consumer": consumer, "hook_raises_at": r.choice([0, 1, 3, 8, 20]), **knobs}
 
 
@@ -244,7 +256,7 @@ class _HookFault(Exception):
     pass
 
 
-def run_journaled(op_list: list, plan: dict, stats: dict, consumer: int = 0, hook_raises_at: int = 0, bulk: int = 0):
+def run_journaled(op_list: list, plan: dict, stats: dict, consumer: int = 0, hook_raises_at: int = 0, bulk: int = 0, clock_step_back_at: int | None = None):
     """Returns (outcomes, violation, journals) — holds no reference to IR objects on return."""
 
     def inc(k, n=1):
@@ -252,7 +264,7 @@ def run_journaled(op_list: list, plan: dict, stats: dict, consumer: int = 0, hoo
 
     viol = None
     obs = Observer()
-    clock = _Clock()
+    clock = _Clock(clock_step_back_at)
     saved_time = _jmod.time
     _jmod.time = clock
     obs.install()
@@ -343,6 +355,7 @@ def run_journaled(op_list: list, plan: dict, stats: dict, consumer: int = 0, hoo
             op = op_list[i]
             active = list({id(x): x for x in stack if x is not None}.values())
             before_counts = [len(jr.entries) for jr in active]
+            before_ids = [[id(e) for e in jr.entries] for jr in active]
             log_start = len(obs.log)
             hook_state["op"] = i
             r = ops.apply_op(w, op)
@@ -381,8 +394,12 @@ def run_journaled(op_list: list, plan: dict, stats: dict, consumer: int = 0, hoo
                     if not (d_ <= g <= t_) and viol is None:
                         viol = {"clause": "entries-vs-calls", "detail": f"op {i} {op[0]}: operation {k[0]!r} was completed {d_} time(s) (called {t_}) on one object but the journal holds {g} entrie(s) for it", "key": f"entries-vs-calls|{k[0]}"}
                 ts = [e.timestamp for e in jr.entries]
-                if any(b < a for a, b in zip(ts, ts[1:])) and viol is None:
+                if not clock.stepped and any(b < a for a, b in zip(ts, ts[1:])) and viol is None:
                     viol = {"clause": "entries-out-of-order", "detail": "journal timestamps decrease", "key": "entries-out-of-order"}
+                # program order: what was recorded stays where it is, new entries come after it (whatever the clock says)
+                prev = before_ids[[id(x) for x in active].index(id(jr))]
+                if [id(e) for e in jr.entries[: len(prev)]] != prev and viol is None:
+                    viol = {"clause": "entries-out-of-order", "detail": f"op {i} {op[0]}: the entries recorded before this operation are no longer the first {len(prev)} entries of the journal, in their order (the journal clock stepped back: {clock.stepped})", "key": "entries-out-of-order|reordered"}
     finally:
         while stack:
             jr = stack.pop()
@@ -422,7 +439,9 @@ def run_case(case: dict) -> dict:
                 warnings.simplefilter("error")
                 stats["cfg_warnings_as_errors"] = 1
             plain = run_plain(op_list)
-            journaled, viol, journals = run_journaled(op_list, plan, stats, consumer, case.get("hook_raises_at", 0), case.get("bulk", 0))
+            journaled, viol, journals = run_journaled(op_list, plan, stats, consumer, case.get("hook_raises_at", 0), case.get("bulk", 0), case.get("clock_step_back_at"))
+            if case.get("clock_step_back_at"):
+                stats["cfg_clock_steps_back"] = 1
     finally:
         if had_limit:
             sys.tracebacklimit = old_limit
